@@ -97,7 +97,7 @@ PROPS["C06"] = Prop(
     "(no bound, loop-free): + - * against i128 arithmetic by SAT; / % by contract chaining "
     "(std primitive stubbed by its contract in Kani, meaning of the primitive proved in Verus lemma L-div).",
     kunits=C06_UNITS,
-    vunits=[V_LDIV],
+    vunits=[V_LDIV, VUnit("name_bind", "name_bind", ["bind::bind_next_name", "bind::bind_name"])],
     assumptions=[
         "integer literal decoding (lexer next_int, unary minus in the grammar) is not under contract",
         "range materialisation `a .. b` ((start..end).map(new_int).collect() inside eval_expr) is not under contract",
@@ -169,4 +169,24 @@ PROPS["C17"] = Prop(
     ],
     trusted_base=VERUS_TRUST,
     not_covered=["message wording", "process exit status / stream ordering", "raise sites in eval_expr, bind_next, bind_object, builtins"],
+)
+
+
+V_NAME = VUnit("name_bind", "name_bind", ["bind::bind_next_name", "bind::bind_name", "value::new_val_ref_with_no_source"])
+
+PROPS["C20"] = Prop(
+    "C20", "proof",
+    "Unit V-name: bind::bind_next_name and bind::bind_name copied verbatim and verified by Verus against the property's clauses "
+    "(`_` never binds; once per pattern; := declares in the innermost scope only and cites the earlier position on conflict; "
+    "= / op= update the nearest enclosing declaration or report Undefined at the name) over an abstract scope-chain view, for all names, "
+    "all chains and all values.",
+    vunits=[V_NAME],
+    assumptions=[
+        "ScopeStack::{declare,get,assign} are under ASSUMED contracts read off src/eval/scope.rs (HashMap + Arc<Mutex> are outside both engines)",
+        "std HashSet<String> is replaced by an assumed mathematical-set contract",
+        "when a scope is pushed or popped (blocks, calls, loop iterations) is not under contract here (C04 territory)",
+    ],
+    trusted_base=VERUS_TRUST,
+    not_covered=["non-bindable target rejection in bind_next / validate_args (literal arms)", "reads of undefined names (eval_expr Var arm)",
+                 "scope push/pop discipline", "bind_object_prop's `_` short-circuit"],
 )
